@@ -303,9 +303,23 @@ pub fn run(ctx: &Ctx) -> Report {
             }
         }
     }
-    // from reset
+    // from reset: whatever the control state was, a CPU reset must lead to one start node
+    let mut reset_nodes: BTreeSet<Node> = BTreeSet::new();
+    for a in (0..512usize).step_by(7) {
+        for ir in 0..=255u8 {
+            let mut m = template.clone();
+            m.raw_mut().verif_force_control(a, ir, 0x80, true, true, ir);
+            m.cpu_reset();
+            let s = m.verif_snapshot();
+            reset_nodes.insert((s.micro_address as u16, s.instruction_register));
+        }
+    }
+    rep.count("reset_probes", 74 * 256);
+    if reset_nodes.len() != 1 {
+        rep.violate("C09:reset-state-depends-on-history", format!("after a CPU reset the sequencer is in one of {} different control states: {:?}", reset_nodes.len(), reset_nodes.iter().take(6).collect::<Vec<_>>()), obj![("from", "reset")]);
+    }
     {
-        let start = vec![(0u16, 0x04u8)];
+        let start: Vec<Node> = reset_nodes.iter().cloned().collect();
         let block_ok = |a: u16, after_reset: bool| -> bool { (a >> 5) == 0 || (after_reset && (0x010..=0x017).contains(&a)) };
         let w = walk(&g, &start, &block_ok, &mut all_nodes);
         if w.zero_word.is_some() || w.dead_end_or_cycle.is_some() || !w.completes_somewhere {
